@@ -14,20 +14,20 @@ claimed = {
           "<= 20 (quick) / 40 (thorough) index buffers; constants (16 slots, capacity, threshold, limit) read from the source on every run; stage-1 kernel and unifiedMachine enter as contracts (arbitrary lengths / may fail after any updateChar call; side conditions on the SSA checked per run); the producer loop uses a checked payload abstraction and loop-head widening (over-approximations); schedule counterexamples are forced natively through an instrumented overlay and one benign schedule is forced natively per run; trusted: z3, go/ssa, the encoders"),
  "C09": ("E3", "§5.9, §10.6", "ParseNDStream from its real closures (reader, forwarder, per-chunk worker) over an abstract reader (symbolic bytes, every fragmentation, fault at any offset): chunks partition the consumed prefix, every chunk ends after an LF or at EOF/fault, no blank-only chunk reaches the parser on a well-formed stream, results are forwarded in queue order for every completion order of the workers then the EOF/reader error then close, termination, no pooled buffer reused while referenced",
           "ASCII streams <= 8 (quick) / 9 (thorough) bytes with tmpSize scaled 10 MiB -> 4, <= 4 / 6 chunks for the ordering lemmas, GOMAXPROCS 1..16; bufio.Reader, bytes.TrimSpace (length only), sync.Pool (havoc mode in the data lemmas) and parseMessage enter as contracts (this is the weakest claim of the set: ~100 lines of real code inside four contracts); trusted: z3, go/ssa, the encoders"),
- "C01": ("E1+E2", "§5.1, §10.4", "stage 1 = REF-SCAN on a symbolic 64-byte block with arbitrary carry for both kernel families and the slice drivers (E1: A1-A7), parseNumber = RFC 8259 number DFA (P2), stage 2 = general reference parser on every layout of <= 3 structural tokens with symbolic bytes plus valid skeletons up to 11 tokens with each token free in turn (P3), the whole synchronous parseMessage incl. the Go stage-1 driver, multi-block messages and index-buffer hand-over (U1)",
+ "C01": ("E1+E2", "§5.1, §10.4", "stage 1 = REF-SCAN on a symbolic 64-byte block with arbitrary carry for both kernel families and the slice drivers (E1: A1-A7), parseNumber = RFC 8259 number DFA (P2), stage 2 = general reference parser on every layout of <= 3 structural tokens with symbolic bytes plus valid skeletons up to 11 tokens with each token free in turn (P3), the whole synchronous parseMessage incl. the Go stage-1 driver, multi-block messages and index-buffer hand-over (U1), the asynchronous branch under the sequential schedule (U1 async; other schedules by C07), the stage-1 driver alone on free layouts incl. the scanner-carry hand-over between kernel calls (U3), maximally nested documents (Deep), the string decoder verdict (E1: S1-S4)",
           "token/byte bounds as in evidence; escapes inside strings are decided by the E1 string lemmas (C04) and excluded from P3/U1; stage-1 kernel, number parser and string decoder enter P3/U1 as the contracts their own lemmas establish; composition over blocks by induction (argued); " + TRUST),
  "C05": ("E1+E2", "§5.5", "the memory-safety obligations of every assembly lemma (loads/stores inside caller-provided extents, index-buffer store bound), and the panic / bounds / unwinding / blocks-forever obligations of parseNumber, unifiedMachine and the whole synchronous parseMessage (channel empty on every exit) on all inputs within the bounds",
-          "bounds as C01; asynchronous termination is C07, traversal of deserialized tapes C19; " + TRUST),
+          "bounds as C01; the schedule lemmas of the asynchronous pipeline (Q1, G2 of C07) are run under this id too; traversal of deserialized tapes C19; resource exhaustion (recursion depth of Interface() on ~10^6 nested levels) is outside every bound; " + TRUST),
  "C08": ("E1+E2", "§5.8", "stage 1 with ndjson=1 (unquoted LF structural, quoted LF not: A5, A7), stage 2 and the whole parseMessage in ndjson mode against REF-ND (roots separated by newline runs, blank lines, bad line, two documents on a line) on all layouts within the bounds",
-          "<= 3 tokens fully symbolic + ndjson skeletons up to 11 tokens; " + TRUST),
+          "<= 3 tokens fully symbolic + ndjson skeletons up to 11 tokens; U1 incl. the async branch under the sequential schedule, U3 stage-1 driver in ndjson mode; " + TRUST),
  "C15": ("E2", "§5.15", "one parseMessage call from an arbitrary (havoc'd) prior state of every reusable field, one newInternalParsedJson adoption with arbitrary stale options, one Serialize/Deserialize with havoc'd Serializer and destination: outcome equals the reference that never sees the prior state; the representation invariant (index channel empty) is re-established on every exit, so the result holds for any history",
-          "bounds of U1/Z1; asynchronous path: C07; allocator behaviour outside; " + TRUST),
+          "bounds of U1/Z1/Z4 (index limit scaled to 2 and 3: several index buffers pending at a stage-2 failure; destinations too small / full / with stale words beyond their length); asynchronous path: C07; allocator behaviour outside; " + TRUST),
  "C16": ("E2", "§5.16", "Clone (nil / zero / used destination) then interleaved Set* edits on both sides and wholesale overwrite of the original's buffers: each side keeps its own document (K1); every copy-mode tape lemma runs with an arbitrary Message (K2); this call's options decide string copying whatever the reused object held (U2); copy mode flags every string (P3)",
           "tapes <= 5/6 words for K1; ParseNDStream values: C09; " + TRUST),
  "C17": ("E2", "§5.17", "refWF (README tape format, strict NOP runs) asserted on every accepting path of unifiedMachine/parseMessage in both modes and on every Deserialize(Serialize(tape)) result",
-          "bounds of P3/U1/Z1; " + TRUST),
- "C18": ("E2", "§5.18, §10.7", "appendFloat = transcription of encoding/json's float encoder on every bit pattern (format switch, exponent clean-up, non-finite => error: FP theory); appendFloatF (bit decomposition, precision, fmtF) = strconv.AppendFloat 'f' executed from the toolchain's SSA for every digit count/decimal point, digit generator opaque on both sides",
-          "the Ryu helper functions (computeBounds, mulByLog*, divmod1e9, mult128bitPow10 for every table entry, divisibleByPower5) = strconv's on arbitrary arguments (R1f); NOT decided: ryuFtoaShortest's admissibility/rounding logic and the digit loops ryuDigits/ryuDigits32 vs strconv's — a symbolic comparison ran out of reach (128-bit products x data-dependent loops), see DESIGN §10.7; shortest-round-trip itself is inherited from the Go standard library (trusted); " + TRUST),
+          "bounds of P3/U1/Z1; the string mode that decides a string entry's buffer flag is the one this call's options select (U2); " + TRUST),
+ "C18": ("E2", "§5.18, §10.7", "appendFloat = transcription of encoding/json's float encoder on every bit pattern (format switch, exponent clean-up, non-finite => error: FP theory); appendFloatF (bit decomposition, precision, fmtF) = strconv.AppendFloat 'f' executed from the toolchain's SSA for every digit count/decimal point, digit generator opaque on both sides; the glue of ryuFtoaShortest (shortcut, bounds, q, exactness, admissibility incl. mantissa parity, round-up hint, decimal exponent) = strconv's for every mantissa and exponent with the helpers uninterpreted (R1t)",
+          "the Ryu helper functions (computeBounds, mulByLog*, divmod1e9, mult128bitPow10 for every table entry, divisibleByPower5) = strconv's on arbitrary arguments (R1f); R1t's counterexamples fix values of uninterpreted helpers and are reported from the encoding when the native run on the model's inputs does not differ; NOT decided: the digit loops ryuDigits/ryuDigits32 vs strconv's — a symbolic comparison ran out of reach (data-dependent loops x division), see DESIGN §10.7; shortest-round-trip itself is inherited from the Go standard library (trusted); " + TRUST),
  "C03": ("E2", "§5.3", "parseNumber (through addNumber) on fully symbolic buffers against the RFC 8259 number DFA and the int64/uint64/float+flag typing rule with exact 128-bit integer values; the read side (Int/Uint/Float/FloatFlags, As*) on every 64-bit payload",
           "buffers <= 10 (quick) / 24 (thorough) bytes fully symbolic, longer ones with a digit run in the middle; strconv.ParseInt/ParseUint/ParseFloat are contracts: correct rounding of ParseFloat is TRUSTED (Go standard library), the check covers which bytes are converted and how the result is typed and flagged; " + TRUST),
  "C04": ("E1", "§5.4", "the string decoder's machine code (_parse_string_validate_only, _parse_string) lifted from the freshly built test binary: one decoder iteration from an arbitrary cursor = REF-STR step (inductive over length/alignment), whole runs of 2 (quick) / 3 (thorough) iterations, copy = validate lengths, loads/stores inside the caller-provided extents; quote/backslash carry across 64-byte blocks (A1/A2, both kernel families)",
@@ -40,16 +40,16 @@ claimed = {
           "<= 3/4 tags, <= 2/3 value words, message <= 2 bytes, declared tape <= 6 words; block types 1/2 (S2/zstd payloads) are third-party decoders outside reach (assumed: error or fill, never panic); " + TRUST),
  "C02": ("E2", "§5.2", "reader side: every traversal API (Advance, AdvanceIter, AdvanceInto/PeekNextTag, ForEach, NextElementBytes, Root, Array, Object, typed accessors) "
           "exposes exactly the abstract document of every well-formed tape within the size bound (all shapes, NOP runs, symbolic payloads/tags/string bytes)",
-          "tapes <= 8 (quick) / 10 (thorough) words, nesting <= 3, strings 1 byte; producer side (tape = refTape(document)) is covered by the stage-2 lemmas when built; " + TRUST),
+          "tapes <= 8 (quick) / 10 (thorough) words, nesting <= 3, strings 1 byte; unescaped string bytes = REF-STR by the E1 string lemmas S1-S4 (run under this id too); producer side (tape = refTape(document)) is covered by the stage-2 lemmas of C01/C17; " + TRUST),
  "C10": ("E2", "§5.10", "MarshalJSON (Iter from root and from inner element iterators, Array, Elements) = REF-RENDER(abstract document) byte for byte at chunk level on every well-formed tape within the bound; "
           "escapeBytes = per-byte JSON escaping and decodes back, for every source of <= 3/4 bytes; non-finite float => error",
-          "tapes <= 8/10 words; number/string chunks opaque+injective in T6; fixed point derived (see DESIGN §5.10); " + TRUST),
+          "tapes <= 8/10 words; number/string chunks opaque+injective in T6; float text = strconv's by C18's lemmas (R2, R1.formatF, R1f, R1t: run under this id too); nesting depth up to 140 (Deep); fixed point derived (see DESIGN §5.10); " + TRUST),
  "C12": ("E2", "§5.12", "numeric accessors on every 64-bit payload per number tag (FP theory); FindKey/FindPath/FindElement/filtered ForEach/Parse+Lookup/Interface/AsString(Cvt) against the abstract document on every well-formed tape within the bound",
           "tapes <= 8-11/9-13 words depending on harness; keys <= 1 byte, query keys <= 2 bytes, unique keys where the statement assumes them; " + TRUST),
  "C13": ("E2", "§5.13", "sequences of 1-2 (quick) / 1-3 (thorough) Set* calls with symbolic arguments on any value position of every well-formed tape within the bound: type gating, frame condition, refWF and all traversal APIs against the updated abstract document",
-          "tapes <= 7/8 words for one call, <= 5/6 for two, <= 5 for three; marshal/serialize after edits by composition with T6/Z1; " + TRUST),
+          "tapes <= 7/8 words for one call, <= 5/6 for two, <= 5 for three; marshal/serialize after edits by composition: T6/Z1 over every well-formed tape are run under this id too; " + TRUST),
  "C14": ("E2", "§5.14", "Array/Object.DeleteElems (every delete subset; callback/filter variants) and SetNull on containers, 1-2/1-3 successive edits, on every well-formed tape within the bound: callback order/once/own key, frame, refWF, all traversal APIs agree on the reduced document",
-          "tapes <= 7/8 words for one edit, <= 5/6 for two, <= 5 for three (thorough); unique keys when a filter is used; " + TRUST),
+          "tapes <= 7/8 words for one edit, <= 5/6 for two, <= 5 for three (thorough); unique keys when a filter is used; lookup/marshal/serialize after deletion by composition: T3/T6/Z1 over every well-formed tape with arbitrary NOP-run patterns are run under this id too; " + TRUST),
 }
 
 na_default = "check not built yet (framework under construction; see DESIGN.md §9)"
